@@ -140,4 +140,79 @@ theorem onsiteStep_good (n0 n1 : Nat) (c : List (List Rat)) (st st' : PauliOp GQ
     simp only [bind, Except.bind] at hs
     cases hs
 
+theorem hopStep_good (n0 n1 : Nat) (c : List (List Rat)) (op op' : PauliOp GQ) (ij : Nat × Nat)
+    (h : AllGood n0 n1 op) (hs : hopStep n0 n1 c op ij = .ok op') : AllGood n0 n1 op' := by
+  unfold hopStep at hs
+  simp only [bind, Except.bind, pure, Except.pure] at hs
+  by_cases h0 : (cget c ij.1 ij.2 == 0) = true
+  · rw [if_pos h0] at hs; cases hs; exact h
+  · rw [if_neg h0] at hs
+    by_cases hadj : (!gridAdj [n0, n1] [false, false] ij.1 ij.2) = true
+    · rw [if_pos hadj] at hs
+      simp only [throw, throwThe, MonadExceptOf.throw] at hs
+      cases hs
+    · rw [if_neg hadj] at hs
+      cases hE : edgeOp n0 n1 (((ij.1 / n1 : Nat) : Int), ((ij.1 % n1 : Nat) : Int))
+          (((ij.2 / n1 : Nat) : Int), ((ij.2 % n1 : Nat) : Int)) with
+      | error e => rw [hE] at hs; cases hs
+      | ok E =>
+        rw [hE] at hs
+        obtain ⟨ix, iy, jx, jy, e1, e2, hok, rfl⟩ := edgeOp_ok_imp _ _ _ _ _ hE
+        simp only [Prod.mk.injEq, Int.natCast_inj] at e1 e2
+        obtain ⟨e1a, e1b⟩ := e1
+        obtain ⟨e2a, e2b⟩ := e2
+        rw [e1a, e1b, e2a, e2b] at hs
+        obtain ⟨h1, h2, h3, h4, hnn⟩ := hok
+        have lE := edgeStr_hasLen (n0 := n0) (n1 := n1) ⟨h1, h2, h3, h4, hnn⟩
+        rw [vertexOp_ok h1 h2, vertexOp_ok h3 h4] at hs
+        simp only [mulE_ok _ _ _ lE (vertexStr_hasLen n0 n1 ix iy), mulE_ok _ _ _ lE (vertexStr_hasLen n0 n1 jx jy),
+          liftP] at hs
+        cases hs
+        exact allGood_add _ _ _ _ _
+          (allGood_add _ _ _ _ _ h (good_edge_vertex _ _ _ _ _ _ _ _ ⟨h1, h2, h3, h4, hnn⟩ h3 h4 (Or.inr ⟨rfl, rfl⟩) _))
+          (good_edge_vertex _ _ _ _ _ _ _ _ ⟨h1, h2, h3, h4, hnn⟩ h1 h2 (Or.inl ⟨rfl, rfl⟩) _)
+
+theorem encodeTerm_good (n0 n1 : Nat) (op op' : PauliOp GQ) (t : Term)
+    (h : AllGood n0 n1 op) (hs : encodeTerm n0 n1 op t = .ok op') : AllGood n0 n1 op' := by
+  unfold encodeTerm at hs
+  cases h1 : t.hop <;> cases h2 : t.isFloat <;> cases h3 : allcloseT (n0 * n1) t.coeffs <;>
+    simp only [h1, h2, h3, bind, Except.bind, throw, throwThe, MonadExceptOf.throw, Bool.not_true, Bool.not_false,
+      if_true, if_false, Bool.false_eq_true, pure, Except.pure, reduceCtorEq] at hs
+  cases hf : List.foldlM (onsiteStep n0 n1 t.coeffs) (op, (0 : Rat)) (List.range (n0 * n1)) with
+  | error e => rw [hf] at hs; cases hs
+  | ok st =>
+    rw [hf] at hs
+    have g1 : AllGood n0 n1 st.1 :=
+      foldlM_inv (onsiteStep n0 n1 t.coeffs) (fun st => AllGood n0 n1 st.1)
+        (fun b a b' hb hfa => onsiteStep_good n0 n1 t.coeffs b b' a hb hfa) _ _ _ h hf
+    have g2 : AllGood n0 n1 (st.1.add (PS.identity (ofcNsites n0 n1)) (realW st.2)) :=
+      allGood_add _ _ _ _ _ g1 (good_identity n0 n1 _)
+    exact foldlM_inv (hopStep n0 n1 t.coeffs) (AllGood n0 n1)
+      (fun b a b' hb hfa => hopStep_good n0 n1 t.coeffs b b' a hb hfa) _ _ _ g2 hs
+
+/-- **every weighted string of the encoded operator is good**; the operator lives on the encoding register -/
+theorem encode_good (inp : Input) (op : PauliOp GQ) (n : Nat) (hs : encode inp = .ok (op, n)) :
+    ∃ n0 n1, inp.shape = [n0, n1] ∧ n = ofcNsites n0 n1 ∧ AllGood n0 n1 op := by
+  unfold encode at hs
+  by_cases c1 : (inp.nfields != 1 || !inp.fermion) = true
+  · simp only [c1, if_true, bind, Except.bind, throw, throwThe, MonadExceptOf.throw, reduceCtorEq] at hs
+  · by_cases c2 : (!inp.integerLattice) = true
+    · simp only [c1, c2, if_true, if_false, bind, Except.bind, throw, throwThe, MonadExceptOf.throw, pure, Except.pure,
+        reduceCtorEq, Bool.false_eq_true] at hs
+    · simp only [c1, c2, if_false, bind, Except.bind, pure, Except.pure, Bool.false_eq_true] at hs
+      split at hs
+      · rename_i n0 n1 hshape
+        by_cases c3 : inp.pbc.any id = true
+        · simp only [c3, if_true, throw, throwThe, MonadExceptOf.throw, reduceCtorEq] at hs
+        · simp only [c3, if_false, Bool.false_eq_true] at hs
+          cases hf : List.foldlM (encodeTerm n0 n1) [] inp.terms with
+          | error e => rw [hf] at hs; cases hs
+          | ok op1 =>
+            rw [hf] at hs
+            simp only [Except.ok.injEq, Prod.mk.injEq] at hs
+            obtain ⟨rfl, rfl⟩ := hs
+            exact ⟨n0, n1, hshape, rfl, foldlM_inv (encodeTerm n0 n1) (AllGood n0 n1)
+              (fun b a b' hb hfa => encodeTerm_good n0 n1 b b' a hb hfa) _ _ _ (allGood_nil n0 n1) hf⟩
+      · simp only [throw, throwThe, MonadExceptOf.throw, reduceCtorEq] at hs
+
 end Qib.Compact
